@@ -15,6 +15,7 @@
 #include "../MatOp/internal/ArnoldiOp.h"
 #include "../Util/TypeTraits.h"
 #include "../Util/SimpleRandom.h"
+#include "../Util/VerifHook.h"
 #include "UpperHessenbergQR.h"
 #include "DoubleShiftQR.h"
 
@@ -106,7 +107,10 @@ protected:
             // If the condition is satisfied, simply return
             // Otherwise, go to the next iteration and try a new random vector
             if (ortho_err < m_eps * fnorm)
+            {
+                SPECTRA_VERIF_EVENT("expand_basis", *this);
                 return;
+            }
         }
     }
 
@@ -177,6 +181,7 @@ public:
 
         // Indicate that this is a step-1 factorization
         m_k = 1;
+        SPECTRA_VERIF_EVENT("init", *this);
     }
 
     // Arnoldi factorization starting from step-k
@@ -277,6 +282,7 @@ public:
 
         // Indicate that this is a step-m factorization
         m_k = to_m;
+        SPECTRA_VERIF_EVENT("factorize", *this);
     }
 
     // Apply H -> Q'HQ, where Q is from a double shift QR decomposition
@@ -321,6 +327,7 @@ public:
         Vector fk = m_fac_f * Q(m_m - 1, m_k - 1) + m_fac_V.col(m_k) * m_fac_H(m_k, m_k - 1);
         m_fac_f.swap(fk);
         m_beta = m_op.norm(m_fac_f);
+        SPECTRA_VERIF_EVENT("compress", *this);
     }
 };
 
